@@ -124,6 +124,18 @@ pub fn ref_opaque(s: &str) -> String {
     let mut out = String::with_capacity(s.len());
     let mut prev: Option<char> = None;
     for c in s.chars() {
+        // composition exclusions stay decomposed under NFC
+        let base = match c as u32 {
+            0x0958 => Some('\u{915}'),
+            0x095B => Some('\u{91c}'),
+            _ => None,
+        };
+        if let Some(b) = base {
+            out.push(b);
+            out.push('\u{93c}');
+            prev = Some('\u{93c}');
+            continue;
+        }
         let c = match c as u32 {
             0x00A0 | 0x1680 | 0x2000..=0x200A | 0x202F | 0x205F | 0x3000 => ' ',
             // NFC singletons
